@@ -520,9 +520,194 @@ def rule_L(ctx):
               node=res['Qlog'][0].node, key='floor')
 
 
+def rule_V(ctx):
+    """C09.V the decoder as a whole: HMM.estimate (with Qlog/Plog and the reconstruction) interpreted on small models and compared
+    with the enumeration of all state sequences"""
+    import itertools
+    import math
+    from .. import absint, orders, npstub
+    f = ctx.prog.func(HMM + '.estimate')
+    fn = absint.funcs(ctx, 'tracklib.algo.dynamics', dict(npstub.stubs()))
+    fn['progressbar'] = lambda x, **k: x
+    fn['log'] = math.log
+    fn['exp'] = math.exp
+
+    def _exit(*a):
+        raise orders.Raised('SystemExit', 'exit()')
+    fn['exit'] = _exit
+    H = absint.classref(ctx, HMM, fn)
+    mod = ctx.prog.module('tracklib.algo.dynamics')
+    vq = mod.consts.get('MODE_VERBOSE_NONE')
+    quiet = vq.value if isinstance(vq, ast.Constant) else 0
+    NEG = float('-inf')
+
+    class TrackS(orders.PyStub):
+        isa = ('Track',)
+
+        def __init__(self, ys):
+            self.n = len(ys)
+            self.feats = {'y': list(ys)}
+
+        def __len__(self):
+            return self.n
+
+        def size(self):
+            return self.n
+
+        def getSRID(self):
+            return 'ENU'
+
+        def hasAnalyticalFeature(self, name):
+            return name in self.feats
+
+        def getObsAnalyticalFeatures(self, names, k):
+            if isinstance(names, str):
+                names = [names]
+            return [self.feats[nm][k] for nm in names]
+
+        def getObsAnalyticalFeature(self, name, k):
+            return self.feats[name][k]
+
+        def createAnalyticalFeature(self, name, val=0.0):
+            if name in self.feats:
+                return
+            self.feats[name] = list(val) if isinstance(val, list) else [val] * self.n
+
+        def setObsAnalyticalFeature(self, name, k, v):
+            if not isinstance(k, int) or not 0 <= k < self.n:
+                raise IndexError('observation %r' % (k,))
+            self.feats[name][k] = v
+
+        def __getitem__(self, key):
+            if isinstance(key, tuple):
+                return self.feats[key[0]][key[1]]
+            return list(self.feats[key])
+
+    found = {}
+    n_models = [0]
+
+    def decode(sizes, emis, trans, logmode, label, family, reuse=None, stationary=False):
+        """emis[k][i], trans[k][(i, j)] are COSTS (-log likelihood); states of epoch k are named 10*k + i.
+        reuse = (hmm, track) of an earlier decoding: the same objects are given the new model through the setters"""
+        n_models[0] += 1
+        T_ = len(sizes)
+        states = [[10 * k + i for i in range(sizes[k])] for k in range(T_)]
+        ys = ['y%d' % k for k in range(T_)]
+
+        def lik(c):
+            if logmode:
+                return -c if c != float('inf') else NEG
+            return 0.0 if c == float('inf') else math.exp(-c)
+        calls = {'Q': [], 'P': []}
+
+        def S(track, k):
+            return list(states[k])
+
+        def Q(s1, s2, k, track):
+            calls['Q'].append(k)
+            if not (isinstance(k, int) and 0 <= k < T_ - 1 and s1 in states[k] and s2 in states[k + 1]):
+                raise orders.Raised('ModelError', 'transition model asked for Q(%r, %r, k=%r): s1 must be a state of epoch k, s2 of epoch k+1' % (s1, s2, k))
+            return lik(trans[k][(s1 % 10, s2 % 10)])
+
+        def P(s, y, k, track):
+            if not (isinstance(k, int) and 0 <= k < T_ and s in states[k] and y == ys[k]):
+                raise orders.Raised('ModelError', 'observation model asked for P(%r, %r, k=%r): state and observation must be those of epoch k' % (s, y, k))
+            return lik(emis[k][s % 10])
+        try:
+            if reuse is None:
+                hmm = H(S, Q, P, logmode, stationary)
+                t = TrackS(ys)
+            else:
+                hmm, t = reuse
+                hmm.call('setStates', S)
+                hmm.call('setTransitionModel', Q)
+                hmm.call('setObservationModel', P)
+            hmm.call('estimate', t, 'y', verbose=quiet)
+        except orders.Unsupported as ex:
+            raise shape_error('HMM.estimate not interpretable: %s' % ex, f.loc())
+        except (orders.Raised, ZeroDivisionError, IndexError, KeyError, TypeError, AttributeError, ValueError, OverflowError) as ex:
+            found.setdefault((family, 'fails'), ('the decoder runs on every model of the family and asks its models only for states/observations of the right epoch',
+                                                 {'model': label, 'log mode': logmode, 'exception': '%s: %s' % (type(ex).__name__, str(ex)[:200])}))
+            return None
+        got = t.feats.get('hmm_inference')
+        best, arg = None, None
+        for path in itertools.product(*[range(s_) for s_ in sizes]):
+            c = sum(emis[k][path[k]] for k in range(T_)) + sum(trans[k][(path[k], path[k + 1])] for k in range(T_ - 1))
+            if best is None or c < best:
+                best, arg = c, path
+        ok = isinstance(got, list) and len(got) == T_ and all(g_ in states[k] for k, g_ in enumerate(got))
+        if ok:
+            gp = [g_ % 10 for g_ in got]
+            c = sum(emis[k][gp[k]] for k in range(T_)) + sum(trans[k][(gp[k], gp[k + 1])] for k in range(T_ - 1))
+            ok = (c == best) or (c != float('inf') and best != float('inf') and abs(c - best) <= 1e-9 * max(1.0, abs(best)))
+        if not ok:
+            found.setdefault((family, 'optimum'), ('the decoded sequence has one candidate state per epoch and attains the maximum of the product of observation '
+                                                   'and transition likelihoods over all sequences',
+                                                   {'model': label, 'log mode': logmode, 'epoch sizes': list(sizes),
+                                                    'observation costs (-log)': emis, 'transition costs (-log)': [{'%d>%d' % k_: v for k_, v in tr.items()} for tr in trans],
+                                                    'decoded': got, 'an optimal sequence': [10 * k + i for k, i in enumerate(arg)], 'optimal cost': best}))
+            return hmm, t
+        rec = t.feats.get('hmm_cost')
+        if best != float('inf') and not any(v == float('inf') for e_ in emis for v in e_):
+            last = rec[-1] if isinstance(rec, list) and len(rec) == T_ else None
+            if not (isinstance(last, (int, float)) and not isinstance(last, bool) and abs(last - best) <= 1e-6 * max(1.0, abs(best))):
+                found.setdefault((family, 'cost'), ('the cost recorded at the last epoch is the optimal cost (minus the log of the maximal joint likelihood)',
+                                                    {'model': label, 'log mode': logmode, 'recorded hmm_cost': rec, 'optimal cost': best,
+                                                     'decoded': got}))
+        return hmm, t
+
+    INF = float('inf')
+    for logmode in (False, True):
+        # (a) two epochs of two states: every weak ordering of the four sequence costs (each sequence owns its transition), with
+        #     costs all positive (likelihoods < 1) and with negative costs (unnormalised likelihoods > 1)
+        names = ['00', '01', '10', '11']
+        for o in orders.weak_orderings(names):
+            for K in (6.0, -4.0):
+                e0, e1 = [0.3, 1.1], [0.7, 0.2]
+                trans = [{(i, j): K + o['%d%d' % (i, j)] - e0[i] - e1[j] for i in range(2) for j in range(2)}]
+                decode((2, 2), [e0, e1], trans, logmode, 'ordering of the sequence costs: ' + orders.describe(o) + (' (likelihoods above 1)' if K < 0 else ''), 'orderings')
+        # (b) every sequence of a three-epoch model in turn the unique optimum; epoch sizes include 1 and 3; transition and
+        #     observation tables differ from epoch to epoch
+        for sizes in ((2, 2, 2), (1, 2, 3), (3, 1, 2), (2, 3, 1), (1, 1, 1), (3,), (1,)):
+            T_ = len(sizes)
+            for target in itertools.product(*[range(s_) for s_ in sizes]):
+                for good, bad_ in ((0.1, 2.3), (-1.5, 0.4)):
+                    emis = [[good if i == target[k] else bad_ for i in range(sizes[k])] for k in range(T_)]
+                    trans = [{(i, j): (good if (i, j) == (target[k], target[k + 1]) else bad_) for i in range(sizes[k]) for j in range(sizes[k + 1])} for k in range(T_ - 1)]
+                    decode(sizes, emis, trans, logmode, 'unique optimum %r%s' % (list(target), ' (likelihoods above 1)' if good < 0 else ''), 'unique')
+        # (c) impossible transitions / observations (likelihood 0) and certain ones (likelihood 1, log-likelihood 0)
+        for sizes, emis, trans, label in (
+                ((2, 2), [[0.0, 0.0], [0.0, 0.0]], [{(0, 0): INF, (0, 1): 1.0, (1, 0): 2.0, (1, 1): INF}], 'two impossible transitions'),
+                ((2, 2), [[0.0, INF], [0.5, 0.0]], [{(0, 0): 1.0, (0, 1): 3.0, (1, 0): 0.0, (1, 1): 0.0}], 'an impossible first state whose transitions are the cheapest'),
+                ((2, 2), [[0.5, 0.5], [0.5, 0.5]], [{(0, 0): 0.0, (0, 1): 1.0, (1, 0): 2.0, (1, 1): 3.0}], 'a certain transition (likelihood 1, log-likelihood 0) is the best one'),
+                ((2, 2, 2), [[0.5, 0.5], [0.0, 1.0], [0.5, 0.5]], [{(0, 0): 1.0, (0, 1): 0.0, (1, 0): 0.0, (1, 1): 1.0}, {(0, 0): 0.0, (0, 1): 2.0, (1, 0): 2.0, (1, 1): 0.0}], 'certain transitions and observations mixed'),
+                ((1, 2), [[0.0], [0.5, 0.0]], [{(0, 0): 0.0, (0, 1): 3.0}], 'a single predecessor whose transition decides'),
+                ((2, 1, 2), [[0.0, 0.2], [0.0], [0.5, 0.0]], [{(0, 0): 2.0, (1, 0): 0.0}, {(0, 0): 0.0, (0, 1): 3.0}], 'a single-state epoch in the middle'),
+                ((2, 2), [[0.0, 0.0], [0.0, 0.0]], [{(0, 0): INF, (0, 1): 100.0, (1, 0): INF, (1, 1): INF}], 'one possible but very unlikely sequence (1e-44) among impossible ones'),
+                ((2, 2), [[0.0, 0.0], [INF, 95.0]], [{(0, 0): 0.0, (0, 1): 0.0, (1, 0): 0.0, (1, 1): 0.0}], 'one possible but very unlikely observation (1e-42) next to an impossible one'),
+                ((2, 2), [[50.0, 70.0], [0.0, 0.0]], [{(0, 0): 60.0, (0, 1): 75.0, (1, 0): 45.0, (1, 1): 41.0}], 'tiny likelihoods (1e-18 .. 1e-33) that differ'),
+        ):
+            decode(sizes, emis, trans, logmode, label, 'zeros and ones')
+        # (d) the same decoder object and the same track used again with another model (stationary flag on): nothing of the first
+        #     decoding may survive into the second
+        for stat in (False, True):
+            first = decode((2, 2), [[0.1, 0.9], [0.2, 0.3]], [{(0, 0): 0.1, (0, 1): 2.0, (1, 0): 2.0, (1, 1): 2.0}], logmode,
+                           'first use of a decoder (stationarity=%s)' % stat, 'reuse', stationary=stat)
+            if first is not None:
+                decode((2, 2), [[0.9, 0.1], [0.3, 0.6]], [{(0, 0): 2.0, (0, 1): 2.0, (1, 0): 2.0, (1, 1): 0.1}], logmode,
+                       'second use of the same decoder and track with other tables (stationarity=%s)' % stat, 'reuse', reuse=first, stationary=stat)
+    for (family, key), (desc, wit) in sorted(found.items()):
+        ctx.violation('C09.V', f, desc, wit, node=f.node, key='%s:%s' % (family, key))
+    for family in ('orderings', 'unique', 'zeros and ones', 'reuse'):
+        if not any(f_ == family for f_, _ in found):
+            ctx.ok('C09.V', f, 'decoded sequence = an optimum of the enumeration, plain and log mode (%s)' % family, node=f.node)
+    ctx.extra['C09.V models'] = n_models[0]
+
+
 RULES = [
-    ('C09.I', rule_I, 'quick'),
-    ('C09.R', rule_R, 'quick'),
-    ('C09.L', rule_L, 'quick'),
+    ('C09.V', rule_V, 'quick'),
 ]
-MIN_OBLIGATIONS = 18
+# rule_I / rule_R / rule_L (index pairing, reconstruction, floor constants read off the statement structure) are no longer run: C09.V
+# decides the same clauses on the decoder's behaviour and is indifferent to how the loops are written (they reported shape errors on
+# behaviour-preserving rewrites: C09-R5, C09-R6)
+MIN_OBLIGATIONS = 4
